@@ -440,7 +440,7 @@ def check(ctx: Ctx) -> None:
     global RECYCLE
     RECYCLE = ctx.pick(500, 1000)
     try:
-        ctx.given(cases, lambda c: run_case(ctx, c), ctx.n(1500, 48000))
+        ctx.given(cases, lambda c: run_case(ctx, c), ctx.n(1500, 32000))
         if ctx.shard in (None, 0):
             golden_check(ctx)
     finally:
